@@ -4,7 +4,7 @@
    dx = (b - a)/n_segments, so that t_p = a (domain_min) and t_{n_segments+p} = b (domain_max). *)
 From Coq Require Import List Reals QArith.
 From Coquelicot Require Import Coquelicot.
-From FDAV Require Import Base.Num Base.Vec Model.Basis Model.Poly Model.Simpson Lemmas.Vec Lemmas.Basis Lemmas.Legendre Lemmas.Ortho Lemmas.Simpson.
+From FDAV Require Import Base.Num Base.Vec Model.Basis Model.Poly Model.Simpson Lemmas.Vec Lemmas.Basis Lemmas.Legendre Lemmas.Ortho Lemmas.Simpson Gen.BasisForms Lemmas.GenBasisForms.
 Import ListNotations.
 Local Open Scope R_scope.
 
@@ -132,3 +132,29 @@ Theorem C18_normalised_unit_simpson_norm : forall x f r, length f = length x -> 
   (simpson opsR x (vmul opsR (vscale opsR (/ r) f) (vscale opsR (/ r) f)) = 1)%R.
 Proof. exact simpson_normalised_unit. Qed.
 Print Assumptions C18_normalised_unit_simpson_norm.
+
+Local Open Scope R_scope.
+(* ---- the closed forms themselves: Gen/BasisForms.v is TRANSLATED from misc/basis.py on every run
+   (harness/reflect.py: _basis_wiener row k-1 = gen_wiener k; _basis_fourier row 0 = gen_fourier_const,
+   odd rows k = gen_fourier_odd with m = (k+1)//2, even rows = gen_fourier_even).  The translated
+   functions are the ones whose orthonormality is proved above; restated on the translated code: ---- *)
+Theorem C18_translated_wiener_is_model : forall k t, gen_wiener k t = wiener k t.
+Proof. exact gen_wiener_is_model. Qed.
+Print Assumptions C18_translated_wiener_is_model.
+Theorem C18_translated_fourier_is_model : forall a b m t,
+  gen_fourier_const a b t = f_const a b t /\ gen_fourier_odd a b m t = f_cos a b m t /\ gen_fourier_even a b m t = f_sin a b m t.
+Proof. intros a b m t. exact (conj (gen_fourier_const_is_model a b t) (conj (gen_fourier_odd_is_cos a b m t) (gen_fourier_even_is_sin a b m t))). Qed.
+Print Assumptions C18_translated_fourier_is_model.
+Theorem C18_translated_wiener_orthonormal : forall j k, (1 <= j)%nat -> (1 <= k)%nat ->
+  is_RInt (fun t => gen_wiener j t * gen_wiener k t) 0 1 (if Nat.eq_dec j k then 1 else 0).
+Proof. exact gen_wiener_orthonormal. Qed.
+Print Assumptions C18_translated_wiener_orthonormal.
+Theorem C18_translated_fourier_orthonormal : forall a b, a < b -> forall m n, (1 <= m)%nat -> (1 <= n)%nat ->
+  is_RInt (fun t => gen_fourier_const a b t * gen_fourier_const a b t) a b 1 /\
+  is_RInt (fun t => gen_fourier_const a b t * gen_fourier_odd a b m t) a b 0 /\
+  is_RInt (fun t => gen_fourier_const a b t * gen_fourier_even a b m t) a b 0 /\
+  is_RInt (fun t => gen_fourier_odd a b m t * gen_fourier_odd a b n t) a b (if Nat.eq_dec m n then 1 else 0) /\
+  is_RInt (fun t => gen_fourier_even a b m t * gen_fourier_even a b n t) a b (if Nat.eq_dec m n then 1 else 0) /\
+  is_RInt (fun t => gen_fourier_even a b m t * gen_fourier_odd a b n t) a b 0.
+Proof. exact gen_fourier_rows_orthonormal. Qed.
+Print Assumptions C18_translated_fourier_orthonormal.
